@@ -63,6 +63,7 @@ func TestVerif_C06_BitmapStatsModel(t *testing.T) {
 			}
 		}
 		nLoss, nLate, nDup, nReports := 0, 0, 0, 0
+		nRestartSteady := 0
 		buf := []byte{1, 2, 3, 4}
 
 		checkStats := func(where string, reset bool) {
@@ -157,7 +158,7 @@ func TestVerif_C06_BitmapStatsModel(t *testing.T) {
 		nops := rapid.IntRange(3, 70).Draw(t, "nops")
 		choices := []string{"run", "run", "run", "loss", "loss", "late", "dup", "bitmapget", "stats", "statsReset", "expect", "jump", "restart", "reorder"}
 		if steady {
-			choices = []string{"run", "run", "loss1", "stats", "statsReset"}
+			choices = []string{"run", "run", "loss1", "loss1", "stats", "statsReset", "steadyRestart"}
 		}
 		for k := 0; k < nops; k++ {
 			op := rapid.SampledFrom(choices).Draw(t, "op")
@@ -254,6 +255,30 @@ func TestVerif_C06_BitmapStatsModel(t *testing.T) {
 				opf("forward jump %d", d)
 				e += d
 				lost = nil
+			case "steadyRestart":
+				// the publisher restarts its numbering (backward jump > 256) between two steady stretches: what was lost
+				// before must have been reported by now, and losses after it are losses of a steadily arriving stream again
+				if !m.started {
+					continue
+				}
+				for i := 0; i < 40; i++ {
+					arrive(e)
+					e++
+				}
+				for _, x := range steadyLost {
+					if !m.reported[x] {
+						t.Fatalf("steady stream: lost packet %d was never reported missing (before the restart)", uint16(x))
+					}
+				}
+				steadyLost = nil
+				d := rapid.IntRange(257, 30000).Draw(t, "bwd")
+				opf("steady restart: jump back %d", d)
+				e = m.newest - d
+				nRestartSteady++
+				for i := 0; i < 40; i++ {
+					arrive(e)
+					e++
+				}
 			case "restart":
 				if !m.started {
 					continue
@@ -273,13 +298,14 @@ func TestVerif_C06_BitmapStatsModel(t *testing.T) {
 			}
 			for _, x := range steadyLost {
 				if !m.reported[x] {
-					t.Fatalf("steady stream: lost packet %d was never reported missing", uint16(x))
+					t.Fatalf("steady stream: lost packet %d was never reported missing (%d restarts before it) [%s]", uint16(x), nRestartSteady, strings.Join(ops, ";"))
 				}
 			}
 		}
 		c06Rec.Case(nLoss > 0 && nLate > 0 || (steady && nLoss > 0), strings.Join(ops, ";"),
 			map[string]any{"steady": steady, "lost": nLoss, "late": nLate, "dups": nDup, "missing_reports": nReports, "epochs": m.epochs + 1, "ops": ops[:min(len(ops), 40)]})
 		c06Rec.ClassIf(steady, "steady_history")
+		c06Rec.ClassIf(nRestartSteady > 0 && len(steadyLost) > 0, "steady_losses_after_a_restart")
 		c06Rec.ClassIf(m.epochs > 0, "restart_or_big_jump")
 		c06Rec.ClassIf(nReports > 0, "missing_reported")
 		c06Rec.ClassIf(nLate > 0, "late_arrivals")
